@@ -21,12 +21,12 @@ ALLOWED_DISCARDS = [
      "kv visitor fails only on a write error of the same buffer, which the next write!/? reports"),
     (r'AsyncHandle|StdWriter as .*::(flush|shutdown)$|StateHandle::(flush|shutdown)$|start_async_fs_flusher', r'Sender::<T>::send$|AsyncHandle::send$',
      "control message (FLUSH/SHUTDOWN) to a writer thread that is gone: the writer is already shut down"),
-    (r'::shutdown(::\{closure#0\})?$', r'^std::thread::JoinHandle::<T>::join$', "a panicked helper thread must not panic the caller of shutdown"),
-    (r'remove_or_compress_too_old_logfiles::\{closure#1\}$|CleanupThreadHandle::shutdown$', r'^std::sync::mpsc::Sender::<T>::send$',
+    (r'::shutdown$', r'^std::thread::JoinHandle::<T>::join$', "a panicked helper thread must not panic the caller of shutdown"),
+    (r'remove_or_compress_too_old_logfiles$|CleanupThreadHandle::shutdown$', r'^std::sync::mpsc::Sender::<T>::send$',
      "cleanup thread gone: nothing to tell"),
-    (r'start_(flusher_thread|sync_flusher)::\{closure#0\}$', r'Receiver::<T>::recv_timeout$', "timer tick: the sender is held by the same closure"),
-    (r'start_async_(stdwriter|fs_writer)::\{closure#0\}$', r'^crossbeam_queue::ArrayQueue::<T>::push$', "buffer pool full: the buffer is simply dropped"),
-    (r'latest_timestamp_file::\{closure#1\}$', r'timestamp_from_ts_infix$', "unparsable infix = not a member of the family (filter_map)"),
+    (r'start_(flusher_thread|sync_flusher)$', r'Receiver::<T>::recv_timeout$', "timer tick: the sender is held by the same closure"),
+    (r'start_async_(stdwriter|fs_writer)$', r'^crossbeam_queue::ArrayQueue::<T>::push$', "buffer pool full: the buffer is simply dropped"),
+    (r'latest_timestamp_file$', r'timestamp_from_ts_infix$', "unparsable infix = not a member of the family (filter_map)"),
     (r'^init$', r'^logger::Logger::start$', "documented: init() ignores a logger that is already set"),
 ]
 # known findings live in known_findings.json (F16: flush().ok(); F17: cleanup thread .ok())
@@ -60,7 +60,7 @@ def run(R, ctx):
         for k_ in c:
             counts[k_] = counts.get(k_, 0) + 1
         if is_discard(c):
-            root = b.path
+            root = root_fn(b.path)
             ordn = per.setdefault((root, n), 0)
             per[(root, n)] = ordn + 1
             key = f"{root}|{n}|discard#{ordn}"
@@ -174,8 +174,8 @@ def panics(R, ctx, sites):
     for (b, bb, n, c) in sites:
         if 'panic' not in c:
             continue
-        key = f"{b.path}|{n}|unwrap"
-        tri = next(((cls, why) for (fr, cr, cls, why) in PANIC_TRIAGE if re.search(fr, b.path) and re.search(cr, n)), None)
+        key = f"{root_fn(b.path)}|{n}|unwrap"
+        tri = next(((cls, why) for (fr, cr, cls, why) in PANIC_TRIAGE if re.search(fr, root_fn(b.path)) and re.search(cr, n)), None)
         if tri:
             R.ok('R19.6', key, f"{tri[0]}: {tri[1]}")
         else:
